@@ -12,7 +12,7 @@ Chk(b, msg) == b \/ (PrintT(msg) /\ FALSE)
 NodeSt(n) ==
     LET j == G.nodes[n]
     IN  [ member |-> j.member, pending |-> j.pending, hruns |-> j.hruns, environ |-> j.environ,
-          sent |-> j.sent, open |-> j.open, th |-> [i \in 1..Len(j.th) |-> j.th[i]] ]
+          sent |-> j.sent, open |-> j.open, cb |-> j.cb, th |-> [i \in 1..Len(j.th) |-> j.th[i]] ]
 
 EdgeOK(k) ==
     LET e == G.edges[k]
